@@ -436,6 +436,19 @@ func (p *VipnodePool) connect(ctx context.Context, nodeID string, req ConnectReq
 		}
 		p.remoteNodeLookup[hostService][node.ID] = struct{}{}
 		p.mu.Unlock()
+	} else {
+		// A node that was registered as a host before is not one anymore: it
+		// must not be counted as a connected host, nor be sent instructions
+		// meant for hosts.
+		p.mu.Lock()
+		if prev, ok := p.remoteHosts[node.ID]; ok {
+			delete(p.remoteHosts, node.ID)
+			delete(p.remoteNodeLookup[prev], node.ID)
+			if len(p.remoteNodeLookup[prev]) == 0 {
+				delete(p.remoteNodeLookup, prev)
+			}
+		}
+		p.mu.Unlock()
 	}
 
 	if err := p.BalanceManager.OnClient(node); err != nil {
